@@ -237,7 +237,10 @@ class Sim:
                         raise Unsupported("call depth")
                     args = [it.ev(a) for a in c.args]
                     return self.call(target, args, kwargs(it, c), bound if not target.is_static else None, cls, depth - 1)
-            return _MISSING
+            # module-level repository utilities made of the same sub-language (e.g. a shared rounding helper) are followed into
+            from .guards import repo_pure_calls
+
+            return repo_pure_calls(repo, m, depth)(it, c)
 
         return hk
 
